@@ -669,6 +669,8 @@ def gen_op(rng, world, sim, n):
         idxs = rng.sample(range(nheld), k) if nheld else []
         if rng.random() < 0.1:
             idxs.append(nheld + 3)
+        if idxs and rng.random() < 0.15:
+            idxs.insert(rng.randrange(len(idxs) + 1), rng.choice(idxs))  # the same index listed twice
         return {"op": kind, "net": n, "idxs": idxs}
     if kind in ("rm_inst", "rm_insts"):
         # mostly reactions that are (or equal) something held; sometimes absent ones
